@@ -5,3 +5,5 @@ INVARIANT PlaneStrainIs3DAtZeroOutOfPlaneStrain
 INVARIANT PlaneInverse
 INVARIANT ROOddIncreasing
 INVARIANT ROMasing
+INVARIANT RO32OddIncreasing
+INVARIANT ModuliPositive
